@@ -43,6 +43,8 @@ MIN_REACH = {
     "listings_checked": {"quick": 500, "thorough": 8000},
     "harvester_name_checks": {"quick": 50, "thorough": 800},
     "harvester_deletes_with_backup": {"quick": 12, "thorough": 200},
+    "harvesters_built_by_the_label_decorator": {"quick": 10, "thorough": 150},
+    "loads_into_memory_asked_for_explicitly": {"quick": 30, "thorough": 500},
 }
 TIME_BUDGET = {"quick": 400, "thorough": 3400}
 
@@ -187,6 +189,23 @@ def run_case(ctx, case):
                 bad.append(("roundtrip", "load_ds(..., create_new=True) of an existing file differs from what was saved: " + d))
             if hasattr(back2, "close"):
                 back2.close()
+            if case["dseed"] % 3 == 2:
+                # loading into memory asked for explicitly: same dataset, and (being in memory) it does not keep the file
+                # busy - saving to the same name afterwards works as after the default load
+                with quiet():
+                    back3 = xyzpy.load_ds(path, engine=engine, load_to_mem=True)
+                ctx.count("loads_into_memory_asked_for_explicitly")
+                d = judge_equal(orig, back3, engine)
+                if d:
+                    bad.append(("roundtrip", "load_ds(..., load_to_mem=True) differs from what was saved: " + d))
+                try:
+                    with quiet():
+                        xyzpy.save_ds(ds, path, engine=engine)
+                except Exception as e:
+                    bad.append(("no-exception", "saving again after load_ds(..., load_to_mem=True) raised %r (the dataset was said to be in memory)" % (e,)))
+                    if hasattr(back3, "close"):
+                        back3.close()
+                listing_ok("save_ds after an explicit in-memory load")
             if engine != "joblib" and case["chunks"] is not None:
                 ch = case["chunks"]
                 if ch == "dict":
@@ -318,6 +337,26 @@ def run_case(ctx, case):
                 with quiet():
                     h2.delete_ds()
                 listing_ok("Harvester.delete_ds", expect_present=False)
+            if case["dseed"] % 4 == 3:
+                # the decorator form: label(..., harvester=<name>, engine=<engine>) builds the Harvester itself
+                for f_ in os.listdir(tmp):
+                    os.remove(os.path.join(tmp, f_))
+
+                def _lab(a):
+                    return 2.5 * a
+                lf = xyzpy.label("y", harvester=path, engine=engine)(_lab)
+                with quiet():
+                    lf.harvest_combos({"a": [1, 2, 3]}, verbosity=0)
+                ctx.count("harvesters_built_by_the_label_decorator")
+                if listing_ok("label(harvester=..., engine=...) + harvest_combos"):
+                    with quiet():
+                        lb = xyzpy.load_ds(path, engine=engine)
+                    if lb["y"].values.tolist() != [2.5, 5.0, 7.5]:
+                        bad.append(("roundtrip", "the file written by the labelled function's harvester holds %r" % (lb["y"].values.tolist(),)))
+                    if hasattr(lb, "close"):
+                        lb.close()
+                if lf.full_ds is not None and hasattr(lf.full_ds, "close"):
+                    lf.full_ds.close()
     except Exception as e:
         bad.append(("no-exception", "%s raised %r" % (case["mode"], e)))
         sig.update(exc_sig(e))
